@@ -9,10 +9,12 @@ in `l`), `Simple` (no parallel edges) and the reachable-state invariant `WF`
 holds for every graph built through `Graph()`, `add_node`, `add_child`,
 `Graph(nodes=…)` (`wf_*` below).
 
-Every theorem is stated about the public model functions only.  Theorems about
-`depth_first` are stated for an explicit `skip` flag (`false` = the code as it is,
-`true` = popped-and-already-visited nodes are skipped), see
-`Graph.dfsSkipVisitedOnPop`.
+Every theorem is stated about the public model functions only.  The three
+findings of the first round (C17-D1 `depth_first` duplicates, C17-D2
+`breadth_first(node)` omissions, C17-D3 `remove` dangling children) were repaired
+in /repo (71bd5c0, a5de234, ce9bde1); the model follows the repaired code and the
+former counterexamples are replaced by the positive statements `dfs_spec`,
+`bfs_from_node_spec`, `remove_spec`.
 -/
 import ErdosVerif.Lemmas.GraphWF
 import ErdosVerif.Lemmas.GraphTopo
@@ -20,6 +22,8 @@ import ErdosVerif.Lemmas.GraphDfs
 import ErdosVerif.Lemmas.GraphBfs
 import ErdosVerif.Lemmas.GraphLongest
 import ErdosVerif.Lemmas.GraphDepth
+import ErdosVerif.Lemmas.GraphBfsNode
+import ErdosVerif.Lemmas.GraphRemove
 
 namespace ErdosVerif.C17
 open ErdosVerif.Model ErdosVerif.Model.Graph
@@ -57,6 +61,45 @@ theorem diamond_simple : diamond.Simple := by
   have e2 : (u == 2) = false := by simp [h2]
   simp [diamond, Graph.ofMapping, Graph.addNode, Graph.linkChild, Graph.touch, Graph.empty,
     Graph.childrenOf, Graph.parentsOf, Dict.set, List.lookup, e0, e1, e2]
+
+/-! ### `remove` -/
+
+/-- Second half of the reachable-state invariant, needed only by `remove`:
+`_parent_graph` is a dict (distinct keys).  It holds for every graph built through
+the public API (`parents_keys_*`). -/
+def ParentKeysNodup (g : Graph) : Prop := (g.parents.map Prod.fst).Nodup
+
+theorem parents_keys_empty : ParentKeysNodup Graph.empty := Graph.parentsKeysNodup_empty
+theorem parents_keys_add_node {g : Graph} (hp : ParentKeysNodup g) (n : Nat) (cs : List Nat) :
+    ParentKeysNodup (g.addNode n cs) := Graph.parentsKeysNodup_addNode hp n cs
+theorem parents_keys_add_child {g g' : Graph} (hp : ParentKeysNodup g) {n c : Nat}
+    (h : g.addChild n c = .ok g') : ParentKeysNodup g' := Graph.parentsKeysNodup_addChild hp h
+theorem parents_keys_of_mapping (m : List (Nat × List Nat)) : ParentKeysNodup (Graph.ofMapping m) :=
+  Graph.parentsKeysNodup_ofMapping m
+theorem parents_keys_remove {g : Graph} (hp : ParentKeysNodup g) (x : Nat) :
+    ParentKeysNodup (g.remove x).1 := Graph.parentsKeysNodup_remove hp x
+
+/-- `remove_spec` (holds since /repo commit ce9bde1): removing a node raises
+nothing, keeps the graph well formed, deletes exactly that key (the order of the
+others is kept) and exactly the edges incident to it. -/
+theorem remove_spec {g : Graph} (wf : g.WF) (hp : ParentKeysNodup g) {x : Nat}
+    (hx : g.hasNode x = true) :
+    (g.remove x).2 = none ∧ (g.remove x).1.WF ∧
+    (g.remove x).1.getNodes = g.getNodes.filter (fun k => k != x) ∧
+    (∀ u v, (g.remove x).1.Edge u v ↔ g.Edge u v ∧ u ≠ x ∧ v ≠ x) := by
+  obtain ⟨h1, h2, h3, _, _⟩ := Graph.remove_spec wf hp hx
+  exact ⟨h1, h2, h3, Graph.edge_remove wf hp hx⟩
+
+/-- `remove` keeps well-formedness in every case; on a label outside the graph it
+raises `ValueError` and changes nothing. -/
+theorem wf_remove {g : Graph} (wf : g.WF) (hp : ParentKeysNodup g) (x : Nat) : (g.remove x).1.WF :=
+  Graph.wf_remove wf hp x
+
+theorem remove_absent {g : Graph} {x : Nat} (hx : g.hasNode x = false) :
+    g.remove x = (g, some "ValueError") := Graph.remove_absent hx
+
+example := remove_spec (wf_of_mapping _) (parents_keys_of_mapping _) (g := diamond) (x := 2) (by decide)
+example : (diamond.remove 2).1 = { children := [(0, [1]), (1, [])], parents := [(1, [0])] } := by decide
 
 /-! ### `topological_sort` -/
 
@@ -209,97 +252,58 @@ theorem bfs_spec {g : Graph} (wf : g.WF) (hac : g.Acyclic) (hs : g.Simple) :
 example : diamond.breadthFirst none = ([0, 2, 1], none) := by decide
 example := bfs_spec (wf_of_mapping _) diamond_acyclic diamond_simple
 
+/-- `bfs_from_node_spec` (holds since /repo commit a5de234): on a DAG without
+parallel edges `breadth_first(n)` raises nothing, yields exactly the nodes reachable
+from `n`, each once, and every node after all of its parents that are reachable
+from `n`. -/
+theorem bfs_from_node_spec {g : Graph} (wf : g.WF) (hac : g.Acyclic) (hs : g.Simple)
+    {n : Nat} (hn : g.hasNode n = true) :
+    (g.breadthFirst (some n)).2 = none ∧
+    (g.breadthFirst (some n)).1.Nodup ∧
+    (∀ m, m ∈ (g.breadthFirst (some n)).1 ↔ g.Reach n m) ∧
+    ∀ u v, g.Edge u v → g.Reach n u → Before (g.breadthFirst (some n)).1 u v :=
+  Graph.bfs_from_node_spec wf hac hs hn
+
+example : diamond.breadthFirst (some 2) = ([2, 1], none) := by decide
+example := bfs_from_node_spec (wf_of_mapping _) diamond_acyclic diamond_simple (n := 2) (by decide)
+
 /-! ### `depth_first(node)` -/
 
-/-- The part of `dfs_spec` that holds of the current code (and of the repaired
-one): no exception, and the SET of yielded nodes is exactly the set of nodes
-reachable from the start node. -/
-theorem dfs_reach (skip : Bool) {g : Graph} (wf : g.WF) {n : Nat} (hn : g.hasNode n = true) :
-    (g.depthFirstWith skip (some n)).2 = none ∧
-      ∀ m, m ∈ (g.depthFirstWith skip (some n)).1 ↔ g.Reach n m :=
-  ⟨Graph.dfs_no_error skip wf.closed hn, Graph.dfs_mem_iff_reach skip wf.closed hn⟩
+/-- `dfs_spec` (full clause, holds since /repo commit 71bd5c0): `depth_first(n)`
+raises nothing and yields exactly the nodes reachable from `n`, each once. -/
+theorem dfs_spec {g : Graph} (wf : g.WF) {n : Nat} (hn : g.hasNode n = true) :
+    (g.depthFirst (some n)).2 = none ∧ (g.depthFirst (some n)).1.Nodup ∧
+      ∀ m, m ∈ (g.depthFirst (some n)).1 ↔ g.Reach n m :=
+  ⟨Graph.dfs_no_error _ wf.closed hn, Graph.dfs_nodup_of_skip g _,
+    Graph.dfs_mem_iff_reach _ wf.closed hn⟩
 
 /-- Same for `depth_first()` from the sources. -/
-theorem dfs_reach_sources (skip : Bool) {g : Graph} (wf : g.WF) :
-    (g.depthFirstWith skip none).2 = none ∧
-      ∀ m, m ∈ (g.depthFirstWith skip none).1 ↔ ∃ s, s ∈ g.getSources ∧ g.Reach s m :=
-  ⟨Graph.dfs_sources_no_error skip wf.closed, Graph.dfs_sources_mem_iff skip wf.closed⟩
+theorem dfs_spec_sources {g : Graph} (wf : g.WF) :
+    (g.depthFirst none).2 = none ∧ (g.depthFirst none).1.Nodup ∧
+      ∀ m, m ∈ (g.depthFirst none).1 ↔ ∃ s, s ∈ g.getSources ∧ g.Reach s m :=
+  ⟨Graph.dfs_sources_no_error _ wf.closed, Graph.dfs_nodup_of_skip g _,
+    Graph.dfs_sources_mem_iff _ wf.closed⟩
 
-/-- `dfs_spec` in full for the REPAIRED generator (`skip = true`): exactly the
-reachable nodes, each once.  FULL STATEMENT OF THE PROPERTY CLAUSE (false of the
-current code, see the counterexample below):
-`∀ g n, g.WF → g.hasNode n → (g.depthFirst (some n)).2 = none ∧
-   (g.depthFirst (some n)).1.Nodup ∧ ∀ m, m ∈ (g.depthFirst (some n)).1 ↔ g.Reach n m`. -/
-theorem dfs_spec_repaired {g : Graph} (wf : g.WF) {n : Nat} (hn : g.hasNode n = true) :
-    (g.depthFirstWith true (some n)).2 = none ∧
-      (g.depthFirstWith true (some n)).1.Nodup ∧
-      ∀ m, m ∈ (g.depthFirstWith true (some n)).1 ↔ g.Reach n m :=
-  ⟨Graph.dfs_no_error true wf.closed hn, Graph.dfs_nodup_of_skip g _,
-    Graph.dfs_mem_iff_reach true wf.closed hn⟩
+example := dfs_spec (wf_of_mapping _) (g := diamond) (n := 0) (by decide)
+example : diamond.depthFirst (some 0) = ([0, 2, 1], none) := by decide
 
-/-- `dfs_spec` for the code as it is, partial: everything except "each once"
-(what is missing is exactly `Nodup`, which is false: finding C17-D1). -/
-theorem dfs_spec_partial {g : Graph} (wf : g.WF) {n : Nat} (hn : g.hasNode n = true) :
-    (g.depthFirst (some n)).2 = none ∧ ∀ m, m ∈ (g.depthFirst (some n)).1 ↔ g.Reach n m :=
-  dfs_reach _ wf hn
-
-/-- Ready for the repair: once `Graph.dfsSkipVisitedOnPop` is switched to `true`
-(the one-line change that follows the one-line fix of `/repo`), the public
-`depthFirst` meets the full clause. -/
-theorem dfs_spec_if_repaired (hfix : Graph.dfsSkipVisitedOnPop = true)
-    {g : Graph} (wf : g.WF) {n : Nat} (hn : g.hasNode n = true) :
-    (g.depthFirst (some n)).2 = none ∧ (g.depthFirst (some n)).1.Nodup ∧
-      ∀ m, m ∈ (g.depthFirst (some n)).1 ↔ g.Reach n m := by
-  unfold Graph.depthFirst
-  rw [hfix]
-  exact dfs_spec_repaired wf hn
-
-/-- The current output with repeated yields dropped is the repaired output, on
-every graph and for every start: the defect is the duplicates and nothing else. -/
-theorem dfs_dedup_is_repaired (g : Graph) (start : Option Nat) :
-    (g.depthFirstWith false start).1.eraseDups = (g.depthFirstWith true start).1 :=
+/-- Regression record for finding C17-D1 (repaired): the former generator
+(`skip = false`) yielded `A,C,B,B` on `A→[B,C], C→[B]`; dropping its repeated
+yields gives exactly the current output, on every graph and for every start. -/
+theorem dfs_former_output_dedup (g : Graph) (start : Option Nat) :
+    (g.depthFirstWith false start).1.eraseDups = (g.depthFirst start).1 :=
   Graph.dfs_dedup_eq_skip g start
-
-/-- Finding C17-D1: the current `depth_first` yields a node more than once
-(`A→[B,C], C→[B]` gives `A,C,B,B`), so "each once" is false of the code as it is. -/
-theorem dfs_each_once_counterexample :
-    (diamond.depthFirstWith false (some 0)).1 = [0, 2, 1, 1] ∧
-      ¬ (diamond.depthFirstWith false (some 0)).1.Nodup := by
-  decide
-
-example := dfs_spec_repaired (wf_of_mapping _) (g := diamond) (n := 0) (by decide)
-example : (diamond.depthFirstWith true (some 0)).1 = [0, 2, 1] := by decide
 
 /-! ### Fuel -/
 
 /-- `fuel_suffices`: the model-only outcome `OutOfFuel` is never produced by
-`depth_first` (any graph, any start, both variants), by `topological_sort` /
-`get_node_depth` / `are_dependent` (well-formed graphs: `topo_err_class`,
-`depth_spec`, `dependent_iff_reach`), by `breadth_first()` on simple DAGs
-(`bfs_spec`) or by `get_longest_path` with positive weights on DAGs
-(`longest_path_spec`). -/
-theorem fuel_suffices_dfs (skip : Bool) (g : Graph) (start : Option Nat) :
-    (g.depthFirstWith skip start).2 ≠ some "OutOfFuel" :=
-  Graph.dfs_fuel_suffices skip g start
-
-/-! ### Other findings, as theorems about the model (tied to the code by the suite) -/
-
-/-- Finding C17-D2: `breadth_first(C)` on `A→[B,C], C→[B]` yields only `C`
-although `B` is reachable from `C` (the parent `A` of `B` is "dependent" on `C`
-because `are_dependent` is symmetric, and is never visited). -/
-theorem bfs_from_node_counterexample :
-    diamond.breadthFirst (some 2) = ([2], none) ∧ diamond.Reach 2 1 := by
-  refine ⟨by decide, Graph.Reach.single ?_⟩
-  show 1 ∈ diamond.childrenOf 2
-  decide
-
-/-- Finding C17-D3: `remove(B)` leaves `B` in the child list of `A`; the result is
-not closed any more and `topological_sort` raises `KeyError` although no cycle
-exists. -/
-theorem remove_dangling_counterexample :
-    let g := (Graph.ofMapping [(0, [1, 2]), (1, [2])]).remove 1
-    g.2 = none ∧ g.1.Edge 0 1 ∧ g.1.hasNode 1 = false ∧
-      g.1.topologicalSort = .error "KeyError" := by
-  refine ⟨by decide, by decide, by decide, by rfl⟩
+`depth_first` (any graph, any start), by `topological_sort` / `get_node_depth` /
+`are_dependent` (well-formed graphs: `topo_err_class`, `depth_spec`,
+`dependent_iff_reach`), by `breadth_first()` / `breadth_first(node)` on simple DAGs
+(`bfs_spec`, `bfs_from_node_spec`) or by `get_longest_path` with positive weights
+on DAGs (`longest_path_spec`). -/
+theorem fuel_suffices_dfs (g : Graph) (start : Option Nat) :
+    (g.depthFirst start).2 ≠ some "OutOfFuel" :=
+  Graph.dfs_fuel_suffices _ g start
 
 end ErdosVerif.C17
